@@ -76,6 +76,20 @@ def descriptions(tier):
     yield [{'datasets': {'d1': copy.deepcopy(DATASETS['d1'])}},
            {'datasets': {'d2': copy.deepcopy(DATASETS['d2'])}, 'alias': {'d1': ['d2']}}], \
         {'reject': 'alias name equals dataset name of an earlier part'}
+    # every way a name can be introduced in part i (as a dataset or as an alias) and reused in part j > i
+    for P in (2, 3):
+        for i, j in itertools.combinations(range(P), 2):
+            for first, second in itertools.product(('ds', 'al'), repeat=2):
+                for alias_section_in_first_part in (False, True):
+                    parts = [{'datasets': {f'base{q}': {f'e{q}': {'x': q}}}} for q in range(P)]
+                    if alias_section_in_first_part:
+                        parts[0]['alias'] = {}
+                    for where, kind in ((i, first), (j, second)):
+                        if kind == 'ds':
+                            parts[where]['datasets']['dup'] = {f'dup{where}': {'x': 10 + where}}
+                        else:
+                            parts[where].setdefault('alias', {})['dup'] = [f'base{where}']
+                    yield parts, {'reject': f'name introduced as {first} in part {i} and reused as {second} in part {j} of {P}'}
 
 
 def reference(parts, name):
